@@ -1323,7 +1323,8 @@ func c3NormParams(p *[]c3KV) (*[]c3KV, bool) {
 	ok := true
 	m := map[string]string{}
 	for _, kv := range *p {
-		ok = ok && kv.K != "" && c3IsASCII(kv.K)
+		// an empty name is a string like any other ("arbitrary strings in every string field")
+		ok = ok && c3IsASCII(kv.K)
 		k := strings.ToLower(kv.K)
 		if _, dup := m[k]; dup {
 			ok = false
@@ -1387,9 +1388,14 @@ func c3NormBS(b *c3BS, extended bool) (*c3BS, bool) {
 		ok = ok && isText && *b.Text >= 0
 		l := *b.Text
 		out.Text = &l
+	} else if isText {
+		// nil == empty: the protocol's body-type-text always carries a line count; an unset
+		// Text and zero lines are the same data (c3TextNilIsZero is applied to what is delivered)
+		l := int64(0)
+		out.Text = &l
 	}
 	if extended {
-		ok = ok && (!isMsg || b.Msg != nil) && (!isText || b.Text != nil)
+		ok = ok && (!isMsg || b.Msg != nil)
 		if b.Ext == nil {
 			return out, false
 		}
@@ -1398,6 +1404,45 @@ func c3NormBS(b *c3BS, extended bool) (*c3BS, bool) {
 		out.Ext = &c3Ext{Disp: d, Lang: c3NormLang(b.Ext.Lang), Loc: b.Ext.Loc}
 	}
 	return out, ok
+}
+
+// c3TextNilIsZero returns the delivered items with a text part's missing line count read as
+// zero lines (nil == empty), so that either delivery of an unset Text is accepted.
+func c3TextNilIsZero(l []c3Msgd) []c3Msgd {
+	var fill func(b *c3BS) *c3BS
+	fill = func(b *c3BS) *c3BS {
+		if b == nil {
+			return nil
+		}
+		c := *b
+		c.Children = nil
+		for _, k := range b.Children {
+			c.Children = append(c.Children, fill(k))
+		}
+		if b.Msg != nil {
+			m := *b.Msg
+			m.Body = fill(m.Body)
+			c.Msg = &m
+		} else if !b.Multi && b.Text == nil && c3IsText(b.Type) {
+			z := int64(0)
+			c.Text = &z
+		}
+		return &c
+	}
+	var out []c3Msgd
+	for _, m := range l {
+		n := c3Msgd{Seq: m.Seq}
+		for _, it := range m.Items {
+			if it.Kind == "body" {
+				c := *it
+				c.BS = fill(it.BS)
+				it = &c
+			}
+			n.Items = append(n.Items, it)
+		}
+		out = append(out, n)
+	}
+	return out
 }
 
 func c3PartOK(p []int) bool {
